@@ -532,3 +532,166 @@ pub(crate) fn leaf_stats_event(stats: &Stats) {
         super::Ev::new("leaf_stats").raw("stats", &stats_data(stats).json()),
     );
 }
+
+// ----------------------------------------------------------------- ignoring
+
+/// `RunIgnored::should_run` (mode: 0 = default, 1 = `--include-ignored`,
+/// 2 = `--ignored`).
+pub fn run_ignored_should_run(mode: usize, ignored: bool) -> bool {
+    use crate::config::RunIgnored;
+    [RunIgnored::No, RunIgnored::Yes, RunIgnored::Only][mode].should_run(ignored)
+}
+
+// ----------------------------------------------------------------- registry
+
+/// JSON rendering of everything the attribute macros registered in this
+/// process (`BENCH_ENTRIES`, `GROUP_ENTRIES`), read-only.
+///
+/// Every string is carried twice: as text and as an array of code points
+/// (`*_cp`).  Absent values are `[]`, never `null`; durations are
+/// picoseconds; numbers are clamped below 2^31.
+pub fn registry_dump() -> String {
+    use crate::entry::{
+        BenchEntryRunner, EntryMeta, BENCH_ENTRIES, GROUP_ENTRIES,
+    };
+
+    fn clamp31(v: u128) -> u128 {
+        v.min((1u128 << 31) - 1)
+    }
+
+    fn cps(s: &str) -> String {
+        let v: Vec<String> =
+            s.chars().map(|c| (c as u32).to_string()).collect();
+        format!("[{}]", v.join(","))
+    }
+
+    fn text(key: &str, s: &str) -> String {
+        format!(
+            "\"{key}\":{},\"{key}_cp\":{}",
+            super::sched::json_str(s),
+            cps(s)
+        )
+    }
+
+    fn opt_num(v: Option<u128>) -> String {
+        match v {
+            Some(v) => format!("[{}]", clamp31(v)),
+            None => "[]".to_owned(),
+        }
+    }
+
+    fn opt_bool(v: Option<bool>) -> String {
+        match v {
+            Some(v) => format!("[{v}]"),
+            None => "[]".to_owned(),
+        }
+    }
+
+    fn options(meta: &EntryMeta) -> String {
+        let o = meta.bench_options();
+        let has = o.is_some();
+        let default = BenchOptions::default();
+        let o = o.unwrap_or(&default);
+        let threads = match &o.threads {
+            Some(t) => {
+                let v: Vec<String> =
+                    t.iter().map(|n| clamp31(*n as u128).to_string()).collect();
+                format!("[[{}]]", v.join(","))
+            }
+            None => "[]".to_owned(),
+        };
+        let counters = counter_set_values(o);
+        format!(
+            "\"has_opts\":{has},\"opts\":{{\"sample_count\":{},\"sample_size\":{},\"threads\":{threads},\"min_time\":{},\"max_time\":{},\"skip_ext_time\":{},\"ignore\":{},\"bytes\":{},\"chars\":{},\"cycles\":{},\"items\":{}}}",
+            opt_num(o.sample_count.map(u128::from)),
+            opt_num(o.sample_size.map(u128::from)),
+            opt_num(o.min_time.map(|d| FineDuration::from(d).picos)),
+            opt_num(o.max_time.map(|d| FineDuration::from(d).picos)),
+            opt_bool(o.skip_ext_time),
+            opt_bool(o.ignore),
+            opt_num(counters[0].map(u128::from)),
+            opt_num(counters[1].map(u128::from)),
+            opt_num(counters[2].map(u128::from)),
+            opt_num(counters[3].map(u128::from)),
+        )
+    }
+
+    fn meta(m: &EntryMeta) -> String {
+        format!(
+            "{},{},{},{},\"line\":{},\"col\":{},{}",
+            text("display_name", m.display_name),
+            text("raw_name", m.raw_name),
+            text("module_path", m.module_path),
+            text("file", m.location.file),
+            clamp31(m.location.line as u128),
+            clamp31(m.location.col as u128),
+            options(m),
+        )
+    }
+
+    // Kind and argument names, obtained like `AnyBenchEntry::arg_names`.
+    fn runner(r: &BenchEntryRunner) -> String {
+        match r {
+            BenchEntryRunner::Plain(_) => {
+                "\"kind\":\"plain\",\"arg_names\":[],\"arg_names_cp\":[]"
+                    .to_owned()
+            }
+            BenchEntryRunner::Args(bench_runner) => {
+                let names = bench_runner().arg_names();
+                let a: Vec<String> =
+                    names.iter().map(|s| super::sched::json_str(s)).collect();
+                let b: Vec<String> = names.iter().map(|s| cps(s)).collect();
+                format!(
+                    "\"kind\":\"args\",\"arg_names\":[{}],\"arg_names_cp\":[{}]",
+                    a.join(","),
+                    b.join(",")
+                )
+            }
+        }
+    }
+
+    let benches: Vec<String> = BENCH_ENTRIES
+        .iter()
+        .map(|e| format!("{{{},{}}}", meta(&e.meta), runner(&e.bench)))
+        .collect();
+
+    let groups: Vec<String> = GROUP_ENTRIES
+        .iter()
+        .map(|g| {
+            let mut insts = Vec::new();
+            let rows = g.generic_benches.unwrap_or_default();
+            for (row, entries) in rows.iter().enumerate() {
+                for (pos, e) in entries.iter().enumerate() {
+                    let (has_type, traw, tdisp) = match &e.ty {
+                        Some(t) => (true, t.raw_name(), t.display_name()),
+                        None => (false, "", ""),
+                    };
+                    let (has_const, cname) = match &e.const_value {
+                        Some(c) => (true, c.name()),
+                        None => (false, ""),
+                    };
+                    insts.push(format!(
+                        "{{\"row\":{row},\"pos\":{pos},\"has_type\":{has_type},{},{},\"has_const\":{has_const},{},{}}}",
+                        text("type_raw", traw),
+                        text("type_display", tdisp),
+                        text("const_name", cname),
+                        runner(&e.bench),
+                    ));
+                }
+            }
+            format!(
+                "{{{},\"is_generic\":{},\"row_count\":{},\"instances\":[{}]}}",
+                meta(&g.meta),
+                g.generic_benches.is_some(),
+                rows.len(),
+                insts.join(",")
+            )
+        })
+        .collect();
+
+    format!(
+        "{{\"benches\":[{}],\"groups\":[{}]}}",
+        benches.join(","),
+        groups.join(",")
+    )
+}
